@@ -613,3 +613,22 @@ pub fn gen_position(rng: &mut Rng) -> Pos {
         g.final_pos()
     }
 }
+
+/// positions in which the side to move has exactly one legal move (found once per process by
+/// scanning generated positions with a fixed seed)
+pub fn forced_move_pool() -> &'static Vec<Pos> {
+    static POOL: std::sync::OnceLock<Vec<Pos>> = std::sync::OnceLock::new();
+    POOL.get_or_init(|| {
+        let mut rng = Rng::new(0xF0CED);
+        let mut v = vec![];
+        let mut tries = 0;
+        while v.len() < 40 && tries < 40_000 {
+            tries += 1;
+            let p = gen_position(&mut rng);
+            if p.legal_moves().len() == 1 {
+                v.push(p);
+            }
+        }
+        v
+    })
+}
